@@ -26,6 +26,9 @@ var checks = map[string]entry{
 	"C06": {"exploration", mon.CheckC06},
 	"C07": {"exploration", mon.CheckC07},
 	"C08": {"exploration", mon.CheckC08},
+	"C18": {"exploration", mon.CheckC18},
+	"C19": {"exploration", mon.CheckC19},
+	"C20": {"exploration", mon.CheckC20},
 }
 
 func main() {
